@@ -117,8 +117,15 @@ def zeroNanTemplates (a : Arr) : Arr :=
     { a with data := (blocks.map fun b => if sz != 0 && b.all (· == .nan) then b.map (fun _ => .num 0) else b).flatten }
   | _ => a
 
-/-- `_load_data` restricted to the array files.  `inv` stands for `np.linalg.inv`. -/
-def load (inv : Arr → Arr) (d : Dir) : Except LoadErr (View × Dir) := do
+/-- `np.eye(n)`; `one` is the cell standing for 1.0 -/
+def eye (one : Cell) (n : Nat) : Arr :=
+  ⟨[n, n], ((List.range n).map fun i => (List.range n).map fun j => if i = j then one else .num 0).flatten⟩
+
+/-- `_load_data` restricted to the array files.  `inv` stands for `np.linalg.inv`; `one` is the cell standing for
+1.0 (it occurs only in the identity `np.eye(nc)` that replaces a missing whitening matrix, model.py:438-442, whose
+inverse `_compute_wmi` WRITES to `whitening_mat_inv.npy`, model.py:447, 760; trailing parameter with the unit token as
+default so that users whose cells are unscaled integers write `load inv d`). -/
+def load (inv : Arr → Arr) (d : Dir) (one : Cell := .num 1) : Except LoadErr (View × Dir) := do
   -- spike samples / times
   let (times, samples, tcells) ← match d.lookup "spike_times.npy" with
     | some s =>
@@ -170,7 +177,9 @@ def load (inv : Arr → Arr) (d : Dir) : Except LoadErr (View × Dir) := do
     | none =>
       match wm with
       | some w => (none, d1 ++ [("whitening_mat_inv.npy", inv w)])
-      | none => (none, d1 ++ [("whitening_mat_inv.npy", { shape := [], data := [] })])   -- inverse of the identity
+      -- `self.wm = np.eye(nc)` (model.py:442, `nc = self.channel_map.shape[0]`, model.py:383), then
+      -- `_compute_wmi(self.wm)` writes `np.linalg.inv(np.eye(nc))` (model.py:447, 756-760)
+      | none => (none, d1 ++ [("whitening_mat_inv.npy", inv (eye one (cm.shape.headD 0)))])
   let similar := (readFile d2 ["similar_templates.npy"]).map fun a => atleast 2 (squeeze (scrub a))
   pure ({ times := times, samples := samples, amplitudes := amplitudes, spikeTemplates := st, spikeClusters := sc,
           channelMap := cm, channelPositions := pos, channelShanks := shanks, channelProbes := probes,
